@@ -63,6 +63,121 @@ pub fn deserialize(context: &mut DeserializationContext<'_>) -> (r: Result<Self>
 """
 
 
+class Core:
+    """spec text fragments of one record with evolution steps (a struct, or one enum case).
+    lf = serialized fields in declaration order, steps = [(kind, name)] read from the expansion,
+    recv(f) = spec expression of the field's value"""
+
+    def __init__(self, lf, steps, recv, strlit):
+        self.lf, self.steps, self.recv, self.strlit = lf, steps, recv, strlit
+        self.k = len(steps)
+        self.V = self.k - 1
+        self.gen = {}
+        for i, (kind, name) in enumerate(steps):
+            if kind == 'FieldAdded':
+                self.gen[name] = i
+        self.fi = 'Map::<Seq<char>, FieldPosition>::empty()'
+        percount = {}
+        self.pos_of = {}
+        for f in lf:
+            c = self.gen.get(f['name'], 0)
+            p = percount.get(c, 0)
+            percount[c] = p + 1
+            self.pos_of[f['name']] = (c, p)
+            self.fi += '.insert(%s, FieldPosition { chunk: %du8, position: %du8 })' % (strlit(f['name']), c, p)
+        evos = []
+        self.removed = 'Set::<Seq<char>>::empty()'
+        for kind, name in steps:
+            if kind == 'InitialVersion':
+                evos.append('Evo::Initial')
+            elif kind == 'FieldAdded':
+                evos.append('Evo::Added { name: %s }' % strlit(name))
+            elif kind == 'FieldMadeOptional':
+                evos.append('Evo::MadeOptional { name: %s }' % strlit(name))
+            elif kind == 'FieldRemoved':
+                evos.append('Evo::Removed { name: %s }' % strlit(name))
+                self.removed += '.insert(%s)' % strlit(name)
+            elif kind == 'FieldMadeTransient':
+                evos.append('Evo::MadeTransient { name: %s }' % strlit(name))
+                self.removed += '.insert(%s)' % strlit(name)
+        self.evos = ', '.join(evos)
+        self.vwf = ' && '.join('%s.vwf()' % recv(f) for f in lf) or 'true'
+
+    def ts(self, t0):
+        ts = [t0]
+        for f in self.lf:
+            ts.append('%s.tbl_after(%s)' % (self.recv(f), ts[-1]))
+        return ts
+
+    def chunks(self, t0, upto=None):
+        ts = self.ts(t0)
+        lf = self.lf if upto is None else self.lf[:upto]
+        ch = []
+        for c in range(self.k):
+            parts = ['Seq::<u8>::empty()'] + ['%s.enc(%s)' % (self.recv(f), ts[i]) for i, f in enumerate(lf) if self.gen.get(f['name'], 0) == c]
+            ch.append(' + '.join(parts))
+        return ch
+
+    def ok(self, t0):
+        ts = self.ts(t0)
+        return ' && '.join('%s.ser_ok(%s)' % (self.recv(f), ts[i]) for i, f in enumerate(self.lf)) or 'true'
+
+    def header(self, t0):
+        """header bytes and table after the header, per the documented step codes (inline form)"""
+        return 'enc_hdr(seq![%s], seq_lens(seq![%s]), %s, %s, %s, %d)' % (
+            self.evos, ', '.join(self.chunks(t0)), self.fi, self.removed, self.ts(t0)[-1], self.k)
+
+    def partial_maps(self, j):
+        fim = 'Map::<Seq<char>, FieldPosition>::empty()'
+        lim = 'Map::<int, u8>::empty()'
+        for f in self.lf[:j]:
+            c, p = self.pos_of[f['name']]
+            fim += '.insert(%s, FieldPosition { chunk: %du8, position: %du8 })' % (self.strlit(f['name']), c, p)
+            lim += '.insert(%dint, %du8)' % (c, p)
+        return fim, lim
+
+
+def annotate_writer(b, what, core, pre, anchor):
+    """insert the proof hints into a block `b` that creates `serializer` with AdtSerializer::new,
+    writes the fields and calls finish().  pre = spec expression of the stream before the version
+    byte; anchor = compiled regex of the statement after which the first snapshot is taken"""
+    lf, k, V, strlit, recv = core.lf, core.k, core.V, core.strlit, core.recv
+    T = core.ts('%s.state.strs()' % pre)
+    m = anchor.search(b)
+    if not m:
+        raise rx.Lost('serialize of %s: statement creating the serializer not found' % what)
+    ins0 = (m.group(0) + '        let ghost s0 = serializer;\n'
+            '        proof { reveal_strlits(); lemma_swrote_facts(%s, s0.ctx(), seq![%du8], %s.state.strs()); }\n' % (pre, V, pre))
+    b = b[:m.start()] + ins0 + b[m.end():]
+    for j, f in enumerate(lf):
+        pat = re.compile(r'(\n\s*serializer\.write_field\("%s",\s*&%s\)\?;)' % (re.escape(f['name']), re.escape(f['name'])))
+        mm = pat.search(b)
+        if not mm:
+            raise rx.Lost('serialize of %s: write_field("%s") not found (the expansion does not follow the documented procedure)' % (what, f['name']))
+        ch = core.chunks('%s.state.strs()' % pre, upto=j + 1)
+        fim, lim = core.partial_maps(j + 1)
+        asserts = ''.join('            assert(serializer.chunk(%d) =~= %s);\n' % (c, ch[c]) for c in range(k))
+        hint = '''
+        proof {
+            lemma_wf_chunked(&s%(j)d, &serializer, %(nm)s, %(fv)s.enc(%(tj)s), %(tj1)s);
+            lemma_swrote_facts(s%(j)d.ctx(), serializer.ctx(), Seq::<u8>::empty(), %(tj1)s);
+            lemma_swrote_trans(%(pre)s, s%(j)d.ctx(), serializer.ctx(), seq![%(V)du8], Seq::<u8>::empty(), %(tj)s, %(tj1)s);
+            assert(seq![%(V)du8] + Seq::<u8>::empty() =~= seq![%(V)du8]);
+%(asserts)s            assert(serializer.field_indices@ =~= %(fim)s);
+            assert(serializer.last_index_per_chunk@ =~= %(lim)s);
+        }
+        let ghost s%(j1)d = serializer;''' % dict(j=j, j1=j + 1, nm=strlit(f['name']), fv=recv(f), tj=T[j], tj1=T[j + 1], V=V, asserts=asserts, fim=fim, lim=lim, pre=pre)
+        b = b[:mm.end()] + hint + b[mm.end():]
+    # before finish(): the buffers are the generated chunks
+    mm = re.search(r'\n(\s*)serializer\.finish\(\)\s*\n', b)
+    if not mm:
+        raise rx.Lost('serialize of %s: finish() not found' % what)
+    chF = core.chunks('%s.state.strs()' % pre)
+    pre_finish = '\n        proof {\n            assert(buf_seqs(serializer.buffers@) =~= seq![%s]);\n            assert(seq_lens(buf_seqs(serializer.buffers@)) =~= seq_lens(seq![%s]));\n        }' % (', '.join(chF), ', '.join(chF))
+    b = b[:mm.start()] + pre_finish + b[mm.start():]
+    return b
+
+
 def gen_struct_evolved(d, expanded, H):
     X = d['name']
     static = ('%s_metadata' % X).upper()
@@ -74,98 +189,13 @@ def gen_struct_evolved(d, expanded, H):
     out = []
     out.append('pub struct %s {\n%s\n}\n' % (X, '\n'.join('    pub %s: %s,' % (f['name'], f['ty']) for f in d['fields'])))
     out.append(H['gen_metadata'](static, steps))
-    gen = {}
-    for i, (kind, name) in enumerate(steps):
-        if kind == 'FieldAdded':
-            gen[name] = i
-
-    def specs(recv, t0):
-        ts = [t0]
-        for f in lf:
-            ts.append('%s.tbl_after(%s)' % (recv(f), ts[-1]))
-        return ts
-    ts = specs(lambda f: 'self.%s' % f['name'], 't')
-    chunks = []
-    for c in range(k):
-        parts = ['Seq::<u8>::empty()'] + ['self.%s.enc(%s)' % (f['name'], ts[i]) for i, f in enumerate(lf) if gen.get(f['name'], 0) == c]
-        chunks.append(' + '.join(parts))
-    fi = 'Map::<Seq<char>, FieldPosition>::empty()'
-    percount = {}
-    pos_of = {}
-    for f in lf:
-        c = gen.get(f['name'], 0)
-        p = percount.get(c, 0)
-        percount[c] = p + 1
-        pos_of[f['name']] = (c, p)
-        fi += '.insert(%s, FieldPosition { chunk: %du8, position: %du8 })' % (strlit(f['name']), c, p)
-    evos = []
-    removed = 'Set::<Seq<char>>::empty()'
-    for kind, name in steps:
-        if kind == 'InitialVersion':
-            evos.append('Evo::Initial')
-        elif kind == 'FieldAdded':
-            evos.append('Evo::Added { name: %s }' % strlit(name))
-        elif kind == 'FieldMadeOptional':
-            evos.append('Evo::MadeOptional { name: %s }' % strlit(name))
-        elif kind == 'FieldRemoved':
-            evos.append('Evo::Removed { name: %s }' % strlit(name))
-            removed += '.insert(%s)' % strlit(name)
-        elif kind == 'FieldMadeTransient':
-            evos.append('Evo::MadeTransient { name: %s }' % strlit(name))
-            removed += '.insert(%s)' % strlit(name)
-    ok = ' && '.join('self.%s.ser_ok(%s)' % (f['name'], ts[i]) for i, f in enumerate(lf)) or 'true'
-    vwf = ' && '.join('self.%s.vwf()' % f['name'] for f in lf) or 'true'
+    core = Core(lf, steps, lambda f: 'self.%s' % f['name'], strlit)
     # ---- body with hints
     b = H['norm_paths'](H['impl_fn'](expanded, 'BinarySerializer', X))
-    T = specs(lambda f: 'self.%s' % f['name'], 'old(context).state.strs()')
-    m = re.search(r'\n(\s*)let %s \{[^}]*\} = self;\n' % X, b)
-    if not m:
-        raise rx.Lost('serialize of %s: destructuring statement not found' % X)
-    V = k - 1
-    ins0 = (m.group(0) + '        let ghost s0 = serializer;\n'
-            '        proof { reveal_strlits(); lemma_swrote_facts(old(context), s0.ctx(), seq![%du8], old(context).state.strs()); }\n' % V)
-    b = b.replace(m.group(0), ins0, 1)
-    # partial chunk contents / maps after j fields
-    def partial(j):
-        ch = []
-        for c in range(k):
-            parts = ['Seq::<u8>::empty()'] + ['self.%s.enc(%s)' % (f['name'], T[i]) for i, f in enumerate(lf[:j]) if gen.get(f['name'], 0) == c]
-            ch.append(' + '.join(parts))
-        fim = 'Map::<Seq<char>, FieldPosition>::empty()'
-        lim = 'Map::<int, u8>::empty()'
-        for f in lf[:j]:
-            c, p = pos_of[f['name']]
-            fim += '.insert(%s, FieldPosition { chunk: %du8, position: %du8 })' % (strlit(f['name']), c, p)
-            lim += '.insert(%dint, %du8)' % (c, p)
-        return ch, fim, lim
-    for j, f in enumerate(lf):
-        pat = re.compile(r'(\n\s*serializer\.write_field\("%s",\s*&%s\)\?;)' % (re.escape(f['name']), re.escape(f['name'])))
-        mm = pat.search(b)
-        if not mm:
-            raise rx.Lost('serialize of %s: write_field("%s") not found (the expansion does not follow the documented procedure)' % (X, f['name']))
-        ch, fim, lim = partial(j + 1)
-        asserts = ''.join('            assert(serializer.chunk(%d) =~= %s);\n' % (c, ch[c]) for c in range(k))
-        hint = '''
-        proof {
-            lemma_wf_chunked(&s%(j)d, &serializer, %(nm)s, self.%(f)s.enc(%(tj)s), %(tj1)s);
-            lemma_swrote_facts(s%(j)d.ctx(), serializer.ctx(), Seq::<u8>::empty(), %(tj1)s);
-            lemma_swrote_trans(old(context), s%(j)d.ctx(), serializer.ctx(), seq![%(V)du8], Seq::<u8>::empty(), %(tj)s, %(tj1)s);
-            assert(seq![%(V)du8] + Seq::<u8>::empty() =~= seq![%(V)du8]);
-%(asserts)s            assert(serializer.field_indices@ =~= %(fim)s);
-            assert(serializer.last_index_per_chunk@ =~= %(lim)s);
-        }
-        let ghost s%(j1)d = serializer;''' % dict(j=j, j1=j + 1, nm=strlit(f['name']), f=f['name'], tj=T[j], tj1=T[j + 1], V=V, asserts=asserts, fim=fim, lim=lim)
-        b = b[:mm.end()] + hint + b[mm.end():]
-    # before finish(): the buffers are the generated chunks
-    mm = re.search(r'\n(\s*)serializer\.finish\(\)\s*\n', b)
-    if not mm:
-        raise rx.Lost('serialize of %s: finish() not found' % X)
-    chF, fimF, limF = partial(len(lf))
-    pre_finish = '\n        proof {\n            assert(buf_seqs(serializer.buffers@) =~= seq![%s]);\n            assert(seq_lens(buf_seqs(serializer.buffers@)) =~= seq_lens(seq![%s]));\n        }' % (', '.join(chF), ', '.join(chF))
-    b = b[:mm.start()] + pre_finish + b[mm.start():]
+    b = annotate_writer(b, X, core, 'old(context)', re.compile(r'\n(\s*)let %s \{[^}]*\} = self;\n' % X))
     b = b.replace('{', '{\n        broadcast use {lemma_swrote_trans_b, lemma_swrote_facts_b};', 1)
-    out.append(SER_TMPL % dict(X=X, tn=ts[-1], chunks=', '.join(chunks), fi=fi, evos=', '.join(evos), removed=removed,
-                               k=k, v=V, ok=ok, vwf=vwf, body=b))
+    out.append(SER_TMPL % dict(X=X, tn=core.ts('t')[-1], chunks=', '.join(core.chunks('t')), fi=core.fi, evos=core.evos, removed=core.removed,
+                               k=k, v=core.V, ok=core.ok('t'), vwf=core.vwf, body=b))
     db = H['norm_paths'](H['impl_fn'](expanded, 'BinaryDeserializer', X))
     db = db.replace('{', '{\n        broadcast use {lemma_rf_any, lemma_rof_any};\n        proof { reveal_strlits(); }', 1)
     out.append(DE_TMPL % dict(X=X, body=db))
